@@ -150,6 +150,95 @@ func (u *parseUnit) errorsOfListener(v ssa.Value, depth int) []ssa.Value {
 
 // gateOf: is cond a test of "syntax errors were reported"? errSucc: the successor taken when there are errors.
 func (u *parseUnit) gateOf(cond ssa.Value) (errSucc int, listeners []ssa.Value, ok bool) {
+	return u.gateOfD(cond, 0)
+}
+
+// nilOnlyWithoutErrors: result idx of unit function g is nil only where no syntax error has been reported: every `return nil` (of
+// that result) lies under the no-error edge of a gate inside g, every other return hands back a value that cannot be nil or the
+// result of another such function. Returns the listeners of the inner gates, with g's parameters replaced by the call's arguments.
+func (u *parseUnit) nilOnlyWithoutErrors(call *ssa.Call, idx int, depth int) ([]ssa.Value, bool) {
+	g := calleeOf(call)
+	if g == nil || !u.fns[g] || g.Blocks == nil || depth > 3 {
+		return nil, false
+	}
+	var ls []ssa.Value
+	mapBack := func(l ssa.Value) ssa.Value {
+		for i, p := range g.Params {
+			if stripIdentity(l) == ssa.Value(p) && i < len(call.Call.Args) {
+				return stripIdentity(call.Call.Args[i])
+			}
+		}
+		return l
+	}
+	any := false
+	for _, b := range g.Blocks {
+		ret, isRet := b.Instrs[len(b.Instrs)-1].(*ssa.Return)
+		if !isRet || idx >= len(ret.Results) {
+			continue
+		}
+		res := stripIdentity(ret.Results[idx])
+		switch x := res.(type) {
+		case *ssa.Const:
+			if !x.IsNil() {
+				continue
+			}
+			// under the no-error edge of a gate of g
+			found := false
+			for _, gb := range g.Blocks {
+				c := branchCond(gb)
+				if c == nil {
+					continue
+				}
+				es, l2, isGate := u.gateOfD(c, depth+1)
+				if isGate && edgeDominates(gb, 1-es, b) {
+					found = true
+					for _, l := range l2 {
+						ls = append(ls, mapBack(l))
+					}
+				}
+			}
+			if !found {
+				return nil, false
+			}
+			any = true
+		case *ssa.MakeInterface:
+			// a concrete value boxed as error: not nil
+		case *ssa.Call:
+			if f := x.Call.StaticCallee(); f != nil && (f.String() == "fmt.Errorf" || f.String() == "errors.New" || f.String() == "errors.Join") {
+				continue
+			}
+			l2, ok := u.nilOnlyWithoutErrors(x, 0, depth+1)
+			if !ok {
+				return nil, false
+			}
+			for _, l := range l2 {
+				ls = append(ls, mapBack(l))
+			}
+			any = true
+		default:
+			return nil, false
+		}
+	}
+	return ls, any
+}
+
+func (u *parseUnit) gateOfD(cond ssa.Value, depth int) (errSucc int, listeners []ssa.Value, ok bool) {
+	// err != nil, where err is what a function of the unit returns, nil only if nothing was reported
+	if x, nn, isNil := nilTest(cond); isNil && depth <= 3 {
+		x = stripIdentity(x)
+		switch c := x.(type) {
+		case *ssa.Call:
+			if ls, ok := u.nilOnlyWithoutErrors(c, 0, depth); ok {
+				return nn, ls, true
+			}
+		case *ssa.Extract:
+			if cc, isC := c.Tuple.(*ssa.Call); isC {
+				if ls, ok := u.nilOnlyWithoutErrors(cc, c.Index, depth); ok {
+					return nn, ls, true
+				}
+			}
+		}
+	}
 	val := true
 	for {
 		if n, isN := cond.(*ssa.UnOp); isN && n.Op == token.NOT {
@@ -403,7 +492,14 @@ func errorsNotDiscarded(w *World, r *Report, prop string) {
 // nil and is itself a cobra RunE function or delivers its own error the same way, or it tests it and exits non-zero on the non-nil
 // edge. Returns "" when delivered, the reason otherwise.
 func errorDelivered(w *World, cv *ssa.Call, depth int) string {
-	fn := cv.Parent()
+	return errorDeliveredV(w, cv, cv, depth)
+}
+
+// errorDeliveredV: the same for an error value ev (a call's only result, or the error component extracted from its tuple); at is
+// the instruction that produced it.
+func errorDeliveredV(w *World, ev ssa.Value, at ssa.Instruction, depth int) string {
+	cv := ev
+	fn := at.Parent()
 	if depth > 4 {
 		return "call chain too deep"
 	}
@@ -516,7 +612,7 @@ func errorDelivered(w *World, cv *ssa.Call, depth int) string {
 		return false
 	}
 	reach := map[*ssa.BasicBlock]bool{}
-	stack := []*ssa.BasicBlock{cv.Block()}
+	stack := []*ssa.BasicBlock{at.Block()}
 	for len(stack) > 0 {
 		b := stack[len(stack)-1]
 		stack = stack[:len(stack)-1]
@@ -535,7 +631,7 @@ func errorDelivered(w *World, cv *ssa.Call, depth int) string {
 			continue
 		}
 		if errIdx >= len(ret.Results) || !nonNil(ret.Results[errIdx], b, 0) {
-			return fmt.Sprintf("%s can return without an error (%s) although the call at %s reported one", fnKey(fn), w.instrPos(ret), w.instrPos(cv))
+			return fmt.Sprintf("%s can return without an error (%s) although the call at %s reported one", fnKey(fn), w.instrPos(ret), w.instrPos(at))
 		}
 	}
 	// fn itself: a RunE function, or its callers deliver
@@ -560,10 +656,22 @@ func errorDelivered(w *World, cv *ssa.Call, depth int) string {
 				return fnKey(fn) + " is started with go/defer: its error is dropped"
 			}
 			real++
-			var val *ssa.Call = c2
-			_ = val
 			if res.Len() > 1 {
-				return fnKey(fn) + ": multi-result callers are not followed"
+				var ex ssa.Value
+				if c2.Referrers() != nil {
+					for _, ref := range *c2.Referrers() {
+						if e2, ok := ref.(*ssa.Extract); ok && e2.Index == errIdx {
+							ex = e2
+						}
+					}
+				}
+				if ex == nil {
+					return fnKey(c2.Parent()) + " drops the error result of " + fnKey(fn)
+				}
+				if why := errorDeliveredV(w, ex, c2, depth+1); why != "" {
+					return why
+				}
+				continue
 			}
 			if why := errorDelivered(w, c2, depth+1); why != "" {
 				return why
@@ -603,4 +711,112 @@ func runFieldOf(w *World, fn *ssa.Function) string {
 		})
 	}
 	return out
+}
+
+// errorForcesExit: wherever the error value v is not nil the process ends with a non-zero status: in v's function a nil test of v
+// whose non-nil edge cannot leave the function without passing os.Exit(non-zero) (or a wrapper that only exits that way), or v is
+// handed - on every path - to a cmd function for whose parameter the same holds.
+func errorForcesExit(w *World, v ssa.Value, depth int) bool {
+	if depth > 3 || v == nil {
+		return false
+	}
+	var fn *ssa.Function
+	switch x := v.(type) {
+	case *ssa.Parameter:
+		fn = x.Parent()
+	case ssa.Instruction:
+		fn = x.Parent()
+	}
+	if fn == nil {
+		return false
+	}
+	exits := func(bb *ssa.BasicBlock) bool {
+		for _, ins := range bb.Instrs {
+			if ci, ok := ins.(ssa.CallInstruction); ok && exitsNonZero(ci, 0) {
+				return true
+			}
+		}
+		return false
+	}
+	for _, b := range fn.Blocks {
+		cond := branchCond(b)
+		if cond == nil {
+			continue
+		}
+		x, nn, ok := nilTest(cond)
+		if !ok || !sameValue(x, v) {
+			continue
+		}
+		seen := map[*ssa.BasicBlock]bool{}
+		stack := []*ssa.BasicBlock{b.Succs[nn]}
+		leaks, some := false, false
+		for len(stack) > 0 {
+			bb := stack[len(stack)-1]
+			stack = stack[:len(stack)-1]
+			if seen[bb] {
+				continue
+			}
+			seen[bb] = true
+			if exits(bb) {
+				some = true
+				continue
+			}
+			// handed on to a function that exits on it
+			handed := false
+			for _, ins := range bb.Instrs {
+				if c, ok := ins.(ssa.CallInstruction); ok {
+					if h := c.Common().StaticCallee(); h != nil && h.Blocks != nil && h.Pkg == w.Cmd {
+						for i, a := range c.Common().Args {
+							if sameValue(a, v) && i < len(h.Params) && errorForcesExit(w, h.Params[i], depth+1) {
+								handed = true
+							}
+						}
+					}
+				}
+			}
+			if handed {
+				some = true
+				continue
+			}
+			if noReturnBlock(bb) {
+				continue
+			}
+			if len(bb.Succs) == 0 {
+				leaks = true
+			}
+			stack = append(stack, bb.Succs...)
+		}
+		if some && !leaks {
+			return true
+		}
+	}
+	// no test here: passed on unconditionally (the call's block dominates every return of the function)
+	if v.Referrers() == nil {
+		return false
+	}
+	for _, ref := range *v.Referrers() {
+		c, ok := ref.(ssa.CallInstruction)
+		if !ok {
+			continue
+		}
+		h := c.Common().StaticCallee()
+		if h == nil || h.Blocks == nil || h.Pkg != w.Cmd {
+			continue
+		}
+		dominatesAll := true
+		for _, rb := range fn.Blocks {
+			if _, isRet := rb.Instrs[len(rb.Instrs)-1].(*ssa.Return); isRet && !c.Block().Dominates(rb) {
+				dominatesAll = false
+			}
+		}
+		if !dominatesAll {
+			continue
+		}
+		for i, a := range c.Common().Args {
+			if a == v && i < len(h.Params) && errorForcesExit(w, h.Params[i], depth+1) {
+				return true
+			}
+		}
+	}
+	return false
 }
